@@ -796,4 +796,48 @@ def i_raising_protocols(x, log):
     return out
 
 
+
+def i_in_generator_body_compares(x, log):
+    def gen(limit):
+        i = 0
+        while i < limit:
+            yield i
+            i += 1
+
+    r = []
+    if x in gen(5):
+        r.append("in")
+    if x not in gen(x % 3):
+        r.append("notin")
+    return r
+
+
+def i_in_iter_raises_then_list(x, log):
+    class Boom(Exception):
+        pass
+
+    class BadIter:
+        def __init__(self, n):
+            self.n = n
+
+        def __iter__(self):
+            return self
+
+        def __next__(self):
+            if self.n > 2:
+                raise Boom("next")
+            self.n += 1
+            return self.n
+
+    def member(v, c):
+        try:
+            if v in c:
+                return "in"
+            return "nin"
+        except Boom:
+            return "caught"
+
+    return [member(x, BadIter(0)), member(x, [1, 2, x]), member(x, BadIter(x % 4)), member(9, (1, 2))]
+
+
 FUNCS = [n for n in sorted(globals()) if n.startswith("i_")]
